@@ -228,6 +228,11 @@ class Conds:
         if isinstance(op, (ast.Is, ast.IsNot)) and isinstance(b, ast.Constant) and b.value is None:
             f = self.atom(f'isnone[{ta}]', node)
             return f if isinstance(op, ast.Is) else f_not(f)
+        if isinstance(op, (ast.Eq, ast.NotEq)) and isinstance(a, (ast.Tuple, ast.List)) and isinstance(b, (ast.Tuple, ast.List)) and len(a.elts) == len(b.elts) \
+                and a.elts and not any(isinstance(x, ast.Starred) for x in a.elts + b.elts):
+            # (a1, a2) == (b1, b2)  <=>  a1 == b1 and a2 == b2
+            f = f_and(*[self._cmp(x, ast.Eq(), y, node) for x, y in zip(a.elts, b.elts)])
+            return f if isinstance(op, ast.Eq) else f_not(f)
         if isinstance(op, (ast.Eq, ast.NotEq, ast.Is, ast.IsNot)):
             # len(x) == 0  <=>  not truth(len(x))
             for x, y, tx in ((a, b, ta), (b, a, tb)):
